@@ -240,11 +240,12 @@ func dischargeBatch(group []*Obligation, dir string, timeoutMs int) {
 
 func dischargeAll(obls []*Obligation, dir string, timeoutMs, workers int, thorough bool) {
 	os.MkdirAll(dir, 0o755)
+	all0 := obls
 	// phase 1: batches of goals with an identical prefix
 	groups := map[string][]*Obligation{}
 	var order []string
 	for _, o := range obls {
-		if o.Expect != "unsat" || o.Status != "" || o.Prefix == "" || thorough {
+		if o.Expect != "unsat" || o.Status != "" || o.Prefix == "" {
 			continue
 		}
 		if _, ok := groups[o.Prefix]; !ok {
@@ -296,7 +297,7 @@ func dischargeAll(obls []*Obligation, dir string, timeoutMs, workers int, thorou
 		go func() {
 			defer wg.Done()
 			for o := range ch {
-				discharge(o, dir, timeoutMs, thorough)
+				discharge(o, dir, timeoutMs, false)
 			}
 		}()
 	}
@@ -305,4 +306,59 @@ func dischargeAll(obls []*Obligation, dir string, timeoutMs, workers int, thorou
 	}
 	close(ch)
 	wg.Wait()
+	if !thorough {
+		return
+	}
+	// phase 3 (thorough tier): every discharged goal is put to a second solver as well; agreement is recorded
+	// with the obligation ("+agree"), disagreement (a model from the second solver) reopens it
+	ch2 := make(chan *Obligation)
+	var wg2 sync.WaitGroup
+	for i := 0; i < workers; i++ {
+		wg2.Add(1)
+		go func() {
+			defer wg2.Done()
+			for o := range ch2 {
+				secondOpinion(o, dir)
+			}
+		}()
+	}
+	for _, o := range all0 {
+		if o.Expect == "unsat" && o.Status == "unsat" && o.Solver != "trivial" && (o.Prefix != "" || o.Script != "") {
+			ch2 <- o
+		}
+	}
+	close(ch2)
+	wg2.Wait()
+}
+
+func secondOpinion(o *Obligation, dir string) {
+	script := o.Script
+	if script == "" {
+		script = o.Prefix + o.Tail
+	}
+	file := filepath.Join(dir, sanitize(o.Name)+fmt.Sprintf("_2nd_p%d_%p.smt2", o.PathID, o))
+	if err := os.WriteFile(file, []byte(script), 0o644); err != nil {
+		return
+	}
+	defer os.Remove(file)
+	ctx, cancel := context.WithCancel(context.Background())
+	defer cancel()
+	ch := make(chan solveResult, 2)
+	for _, sp := range solvers[1:3] {
+		go func(sp solverSpec) { ch <- runSolver(ctx, sp, file, 15000) }(sp)
+	}
+	verdict := "+single"
+	for i := 0; i < 2; i++ {
+		r := <-ch
+		if r.status == "unsat" {
+			verdict = "+agree"
+			break
+		}
+		if r.status == "sat" {
+			o.Status, o.Solver, o.Model = "sat", r.solver+"(second opinion)", modelOf(r)
+			o.Script = script
+			return
+		}
+	}
+	o.Solver += verdict
 }
